@@ -15,7 +15,7 @@ use crate::util;
 use compiler::env::{EnumDef, Gensym, GlobalTypeEnv, StructDef};
 use compiler::mono::GlobalMonoEnv;
 use compiler::pipeline::pipeline;
-use compiler::tast::TastIdent;
+use compiler::tast::{TastIdent, Ty};
 use indexmap::IndexMap;
 use std::fmt::Write as _;
 use std::panic::{AssertUnwindSafe, catch_unwind};
@@ -28,6 +28,8 @@ pub struct Staged {
     pub lift: Option<(compiler::lift::LiftFile, compiler::lift::GlobalLiftEnv)>,
     pub anf: Option<(compiler::anf::File, compiler::anf::GlobalAnfEnv)>,
     pub go_ok: bool,
+    /// the Go AST dump (`godump::gfile`) when the backend returned
+    pub go: Option<String>,
     /// `None` = every pass returned; otherwise (kind, stage, message), kind ∈ reject | panic
     pub stop: Option<(&'static str, &'static str, String)>,
 }
@@ -38,7 +40,7 @@ fn guarded<T>(f: impl FnOnce() -> T) -> Result<T, String> {
 
 /// the passes of `pipeline::compile`, one by one; `upto_mono` stops after monomorphisation
 pub fn run_stages(path: &Path, src: &str, upto_mono: bool) -> Staged {
-    let mut st = Staged { genv: None, core: None, mono: None, lift: None, anf: None, go_ok: false, stop: None };
+    let mut st = Staged { genv: None, core: None, mono: None, lift: None, anf: None, go_ok: false, go: None, stop: None };
     if !upto_mono {
         // the real entry point first (multi-package programs are linked there); the pass-by-pass run
         // below is only needed to keep the earlier stages when a later pass panics
@@ -50,6 +52,7 @@ pub fn run_stages(path: &Path, src: &str, upto_mono: bool) -> Staged {
                 st.lift = Some((c.lambda.clone(), c.liftenv.clone()));
                 st.anf = Some((c.anf.clone(), c.anfenv.clone()));
                 st.go_ok = true;
+                st.go = Some(crate::godump::gfile(&c.go).to_text());
                 return st;
             }
             Ok(Err(e)) => {
@@ -120,7 +123,10 @@ pub fn run_stages(path: &Path, src: &str, upto_mono: bool) -> Staged {
     };
     st.anf = Some((anf.clone(), anfenv.clone()));
     match guarded(|| compiler::go::compile::go_file(anfenv.clone(), &gensym, anf.clone())) {
-        Ok(_) => st.go_ok = true,
+        Ok((g, _)) => {
+            st.go_ok = true;
+            st.go = Some(crate::godump::gfile(&g).to_text());
+        }
         Err(m) => st.stop = Some(("panic", "go", m)),
     }
     st
@@ -229,6 +235,115 @@ fn mono_vars(e: &compiler::mono::MonoExpr, out: &mut Vec<(String, bool)>) {
     }
 }
 
+/// calls in the Mono program whose callee annotation is not the signature of the Mono function they name:
+/// after specialisation every function is monomorphic, so the two must be the same type; a mismatch means
+/// that call sites at different types share one instance (or an instance was named without binding a parameter)
+fn mono_calls(e: &compiler::mono::MonoExpr, out: &mut Vec<(String, Ty)>) {
+    use compiler::mono::MonoExpr as E;
+    match e {
+        E::EVar { .. } | E::EPrim { .. } => {}
+        E::EConstr { args, .. } => args.iter().for_each(|a| mono_calls(a, out)),
+        E::ETuple { items, .. } | E::EArray { items, .. } => items.iter().for_each(|a| mono_calls(a, out)),
+        E::ELet { value, body, .. } => {
+            mono_calls(value, out);
+            mono_calls(body, out)
+        }
+        E::EMatch { expr, arms, default, .. } => {
+            mono_calls(expr, out);
+            for arm in arms {
+                mono_calls(&arm.body, out);
+            }
+            if let Some(d) = default {
+                mono_calls(d, out)
+            }
+        }
+        E::EIf { cond, then_branch, else_branch, .. } => {
+            mono_calls(cond, out);
+            mono_calls(then_branch, out);
+            mono_calls(else_branch, out)
+        }
+        E::EWhile { cond, body, .. } => {
+            mono_calls(cond, out);
+            mono_calls(body, out)
+        }
+        E::EGo { expr, .. } | E::EConstrGet { expr, .. } | E::EUnary { expr, .. } | E::EToDyn { expr, .. } => mono_calls(expr, out),
+        E::EBinary { lhs, rhs, .. } => {
+            mono_calls(lhs, out);
+            mono_calls(rhs, out)
+        }
+        E::ECall { func, args, .. } => {
+            if let E::EVar { name, ty } = &**func {
+                out.push((name.clone(), ty.clone()));
+            } else {
+                mono_calls(func, out);
+            }
+            args.iter().for_each(|a| mono_calls(a, out))
+        }
+        E::EDynCall { receiver, args, .. } => {
+            mono_calls(receiver, out);
+            args.iter().for_each(|a| mono_calls(a, out))
+        }
+        E::EClosure { body, .. } => mono_calls(body, out),
+        E::EProj { tuple, .. } => mono_calls(tuple, out),
+    }
+}
+
+fn tparams_of(t: &Ty, out: &mut std::collections::BTreeSet<String>) {
+    match t {
+        Ty::TParam { name } => {
+            out.insert(name.clone());
+        }
+        Ty::TTuple { typs } => typs.iter().for_each(|t| tparams_of(t, out)),
+        Ty::TApp { ty, args } => {
+            tparams_of(ty, out);
+            args.iter().for_each(|t| tparams_of(t, out))
+        }
+        Ty::TArray { elem, .. } | Ty::TVec { elem } | Ty::TRef { elem } => tparams_of(elem, out),
+        Ty::TFunc { params, ret_ty } => {
+            params.iter().for_each(|t| tparams_of(t, out));
+            tparams_of(ret_ty, out)
+        }
+        _ => {}
+    }
+}
+
+/// type parameters that occur in the signature of some Core function (a parameter that occurs in no
+/// signature is a phantom one: the known finding; one that does must have been bound by mono)
+pub fn sig_tparams(core: &compiler::core::File) -> std::collections::BTreeSet<String> {
+    let mut ps = std::collections::BTreeSet::new();
+    for f in core.toplevels.iter() {
+        ps.extend(f.generics.iter().cloned());
+        for (_, t) in f.params.iter() {
+            tparams_of(t, &mut ps);
+        }
+        tparams_of(&f.ret_ty, &mut ps);
+    }
+    ps
+}
+
+pub fn call_signature_mismatches(mono: &compiler::mono::MonoFile) -> Vec<(String, String)> {
+    let sigs: std::collections::BTreeMap<&str, Ty> = mono
+        .toplevels
+        .iter()
+        .map(|f| (f.name.as_str(), Ty::TFunc { params: f.params.iter().map(|(_, t)| t.clone()).collect(), ret_ty: Box::new(f.ret_ty.clone()) }))
+        .collect();
+    let mut bad = Vec::new();
+    for f in mono.toplevels.iter() {
+        let mut cs = Vec::new();
+        mono_calls(&f.body, &mut cs);
+        for (callee, ann) in cs {
+            if let Some(sig) = sigs.get(callee.as_str()) {
+                if *sig != ann {
+                    bad.push((f.name.clone(), callee));
+                }
+            }
+        }
+    }
+    bad.sort();
+    bad.dedup();
+    bad
+}
+
 /// references from the Mono program to functions of the Core program that have no Mono instance
 /// (a generic function that was needed but not specialised), with the function that refers to them
 pub fn unspecialised_refs(core: &compiler::core::File, mono: &compiler::mono::MonoFile) -> Vec<(String, String, bool)> {
@@ -261,6 +376,11 @@ pub fn emit(id: &str, src: Option<&str>, st: &Staged, out: &mut String) {
             writeln!(out, "{}\tMONO\t{}", id, mono_case(m, env).to_text()).unwrap();
             writeln!(out, "{}\tSTAGE\tmono\t{}", id, c01::prog(dump::mono_file(m), &impls).to_text()).unwrap();
             writeln!(out, "{}\tNAMES\t{}", id, m.toplevels.iter().map(|f| esc_line(&f.name)).collect::<Vec<_>>().join("\t")).unwrap();
+            writeln!(out, "{}\tSIGTPARAMS\t{}", id, sig_tparams(core).into_iter().collect::<Vec<_>>().join(" ")).unwrap();
+            let cm = call_signature_mismatches(m);
+            if !cm.is_empty() {
+                writeln!(out, "{}\tCALLSIG\t{}", id, cm.iter().map(|(f, g)| format!("{}>{}", esc_line(f), esc_line(g))).collect::<Vec<_>>().join("\t")).unwrap();
+            }
             let un = unspecialised_refs(core, m);
             if !un.is_empty() {
                 writeln!(out, "{}\tUNSPEC\t{}", id, un.iter().map(|(f, v, c)| format!("{}>{}>{}", esc_line(f), esc_line(v), if *c { "call" } else { "value" })).collect::<Vec<_>>().join("\t")).unwrap();
@@ -578,10 +698,10 @@ fn fnval_program(rng: &mut crate::rng::Rng) -> String {
 fn phantom_program(rng: &mut crate::rng::Rng) -> String {
     let (ty, e, show) = *rng.pick(TYS);
     let f = match rng.below(4) {
-        0 => "fn ph[A](n: int32) -> int32 { let v: Vec[A] = vec_new(); vec_len(v) + n }",
-        1 => "fn ph[A](n: int32) -> int32 { let o: Opt[A] = Opt::Non; match o { Opt::Non => n, Opt::Som(_) => 0 } }",
-        2 => "fn ph[A](n: int32) -> int32 { let l: Lst[A] = Lst::Nil; llen(l) + n }",
-        _ => "fn ph[A](n: int32) -> int32 { let p: (Opt[A], int32) = (Opt::Non, n); p.1 }",
+        0 => "fn ph[P](n: int32) -> int32 { let v: Vec[P] = vec_new(); vec_len(v) + n }",
+        1 => "fn ph[P](n: int32) -> int32 { let o: Opt[P] = Opt::Non; match o { Opt::Non => n, Opt::Som(_) => 0 } }",
+        2 => "fn ph[P](n: int32) -> int32 { let l: Lst[P] = Lst::Nil; llen(l) + n }",
+        _ => "fn ph[P](n: int32) -> int32 { let p: (Opt[P], int32) = (Opt::Non, n); p.1 }",
     };
     format!("{}{}\nfn main() -> unit {{ let r: {} = {}; let _ = {}; string_println(int32_to_string(ph(2))) }}\n", PRELUDE, f, ty, e, show)
 }
@@ -623,6 +743,7 @@ pub fn gen_cfg(i: usize) -> crate::progen::Cfg {
         dyn_generics: i % 2 == 0,
         generic_fn_values: false,
         overlapping_impls: i % 3 != 1,
+        result_only_generics: i % 4 != 3,
         ..Default::default()
     }
 }
